@@ -486,6 +486,21 @@ func rule085(r *core.Run, ctx *oblig.Ctx) {
 			}
 		}
 		r.Check(okLim, "R08.5", key(fname(r, mh), "metadataSize > limit → MetadataTooLarge"), r.P.Pos(mh.Pos()), "limit enforced", "metadataHeaders no longer returns ErrMetadataTooLarge when metadataSize(meta) > sizeLimit")
+		// what is measured is what is stored: nothing is added to the map after it was measured
+		late := ""
+		core.Instrs(mh, func(in ssa.Instruction) {
+			mu, ok := in.(*ssa.MapUpdate)
+			if !ok {
+				return
+			}
+			core.Instrs(mh, func(y ssa.Instruction) {
+				if c, ok := y.(*ssa.Call); ok && r.P.CalleeName(c) == "gofakes3.metadataSize" && core.Reaches(c, mu) {
+					late = pos(r, mu)
+				}
+			})
+		})
+		r.Check(late == "", "R08.5", key(fname(r, mh), "measured after the last entry is added"), r.P.Pos(mh.Pos()), "no entry is added after metadataSize was taken",
+			"an entry is added to the metadata map (at "+late+") after its size was measured against the limit: the stored metadata can exceed the configured limit by the size of that entry")
 		if ms := mustFunc(r, "gofakes3.metadataSize"); ms != nil {
 			var rets []ssa.Value
 			for _, ret := range core.Returns(ms) {
